@@ -56,7 +56,8 @@ package types
 // MinDepositTxSize = 94 (> 64: a 64-byte "transaction" could be an inner Merkle node), MaxAllowedBtcTxSize = 32768.
 
 //@ func (*Deposit).Validate
-//@ property C03
+// C19: stateless validation is what keeps nil sub-messages away from the handlers (the `shape` clause)
+//@ property C03 C19
 //@ ensures shape: err == nil ==> req != nil && len(req.EvmAddress) == 20 && req.RelayerPubkey != nil
 //@ ensures tx_size: err == nil ==> len(req.NoWitnessTx) >= 94 && len(req.NoWitnessTx) <= 32768
 //@ modifies nothing
